@@ -7,7 +7,7 @@ From Lal Require Import Common.LBytes Common.Res Net.NetChk Net.NetChkProofs
   Net.NetRtpHeader Net.NetRtpHeaderProofs Net.NetRtcp Net.NetInterleaved Net.NetWsRead Net.NetFramingProofs
   Net.NetAuHeader Net.NetAuHeaderProofs Net.NetUnpack Net.NetUnpackProofs Net.NetInSess Net.NetInSessProofs
   Net.NetInSessSetup Net.NetInSessSetupProofs Net.NetPs Net.NetPsProofs
-  Net.NetStr Net.NetSdpRaw Net.NetUrlPath Net.NetRtmpClient Net.NetTextProofs.
+  Net.NetStr Net.NetSdpRaw Net.NetUrlPath Net.NetRtmpClient Net.NetTextProofs Net.NetHttpMsg Net.NetHttpMsgProofs.
 Open Scope N_scope.
 
 (* ---- 1. RTP header / packet / body ------------------------------------- *)
@@ -198,6 +198,45 @@ Theorem c13_rtmp_client_refuted :
 Proof. exact client_do_msg_pinned_refuted. Qed.
 Print Assumptions c13_rtmp_client_refuted.
 
+(* ---- 8. the RTSP message reader of the server and client command sessions ---- *)
+(* rtsp.readHttpMessage on ANY byte stream (then end of input): it returns a message - complete, or with
+   the body cut short by the end of the stream - or an error; no panic, no loop out of fuel.  For a returned
+   message: the capacity reserved for the body is at most 2 * (body bytes received + 4096), whatever
+   Content-Length announces; the body is part of the stream; the unread rest is a strictly shorter suffix *)
+Theorem c13_rtsp_msg_total : forall s,
+  (exists m, read_msg true s = Ok m /\
+     mo_cap m <= 2 * (lenN (mo_body m) + 4096) /\ lenN (mo_body m) <= lenN s /\
+     (exists p, s = p ++ mo_rest m) /\ (length (mo_rest m) < length s)%nat) \/
+  (exists e, read_msg true s = Err e /\ e <> err_out_of_fuel).
+Proof. exact read_msg_spec. Qed.
+Print Assumptions c13_rtsp_msg_total.
+
+Theorem c13_no_panic_rtsp_msg : forall s, is_panic (read_msg true s) = false.
+Proof. exact read_msg_no_panic. Qed.
+Print Assumptions c13_no_panic_rtsp_msg.
+
+(* the framing loops of ServerCommandSession.runCmdLoop (plain: interleaved packet or request; WebSocket: one
+   request per frame payload) and ClientCommandSession.runReadLoop on any byte stream: they stop at the first
+   error, without panic, within fuel = length + 1 *)
+Theorem c13_rtsp_loop_total : forall s, bytes_ok s -> exists items, rtsp_loop true (S (length s)) s [] = Ok items.
+Proof. intros s H. apply rtsp_loop_total; [exact H|apply Nat.lt_succ_diag_r]. Qed.
+Print Assumptions c13_rtsp_loop_total.
+Theorem c13_rtsp_ws_loop_total : forall s, exists items, rtsp_ws_loop true (S (length s)) s [] = Ok items.
+Proof. intros s. apply rtsp_ws_loop_total. apply Nat.lt_succ_diag_r. Qed.
+Print Assumptions c13_rtsp_ws_loop_total.
+
+(* before the repair (nazahttp.ReadHttpMessage: make([]byte, Atoi(Content-Length)) before reading):
+   "Content-Length: -1" and "Content-Length: 9223372036854775807" panic in makeslice, "Content-Length:
+   99999999999" reserves 100 GB for a body of which nothing has arrived; the same through both session loops *)
+Theorem c13_rtsp_msg_refuted :
+  read_msg false (w_msg [45; 49]) = Panic s_httpmsg_makeslice /\
+  read_msg false (w_msg [57; 50; 50; 51; 51; 55; 50; 48; 51; 54; 56; 53; 52; 55; 55; 53; 56; 48; 55]) = Panic s_httpmsg_makeslice /\
+  (exists m, read_msg false (w_msg [57; 57; 57; 57; 57; 57; 57; 57; 57; 57; 57]) = Ok m /\ mo_body m = [] /\ mo_cap m = 99999999999) /\
+  rtsp_loop false 100 (w_msg [45; 49]) [] = Panic s_httpmsg_makeslice /\
+  rtsp_ws_loop false 100 ([130; 27] ++ w_msg [45; 49]) [] = Panic s_httpmsg_makeslice.
+Proof. exact read_msg_pinned_refuted. Qed.
+Print Assumptions c13_rtsp_msg_refuted.
+
 (* non-vacuity: a well-formed packet with CSRC, extension and padding is accepted *)
 Example c13_rtp_nonvacuous :
   exists h, parse_rtp_packet_body true
@@ -219,4 +258,11 @@ Example c13_insess_transport_nonvacuous :
     [SvSetupConn TA; SvSetupConn TV; SvUdpRtp TV (w_rtp 8 17 [213; 213]); SvUdpRtcp TV (w_sr 17); SvUdpRtcp TA (w_sr 99)]
   = Ok [USep; USep; UEv (EvRtp 1); UEv (EvAv (mk_av 8 0 [213; 213])); USep;
         URrUdp TA (rr_pack 0 0 0 1 0 65536); USep; USep].
+Proof. vm_compute. reflexivity. Qed.
+
+(* non-vacuity: "A B C\r\ncontent-length: 3\r\n\r\nxyz$" is one message with a 3-byte body; the key is
+   stored in canonical form; the rest of the stream is handed back *)
+Example c13_rtsp_msg_nonvacuous :
+  read_msg true ([65; 32; 66; 32; 67; 13; 10; 99; 111; 110; 116; 101; 110; 116; 45; 108; 101; 110; 103; 116; 104; 58; 32; 51; 13; 10; 13; 10; 120; 121; 122; 36])
+  = Ok (mk_out [65] [66] [67] [(content_length_key, [[51]])] [120; 121; 122] 3 None [36]).
 Proof. vm_compute. reflexivity. Qed.
